@@ -428,7 +428,9 @@ def store_accesses(prog, modname, names=None):
     for n in walk_local(f.node):
       if isinstance(n, ast.Global):
         declared_global.update(n.names)
-    for n in walk_local(f.node):
+    lambdas = [l for l in walk_local(f.node) if isinstance(l, ast.Lambda)]
+    in_lambdas = [x for l in lambdas for x in ast.walk(l.body)]
+    for n in list(walk_local(f.node)) + in_lambdas:
       if isinstance(n, ast.Name) and n.id in stores:
         if n.id in declared_global:
           pass
